@@ -72,6 +72,19 @@ REAL = [
     [["RETURN", _c("categorize", _q("win"), ["l", [["l", [["l", [_s("Work")]], ["d", [["type", _s("regex")], ["regex", _s("a0|a2")]]]]]]])]],
     [["RETURN", _c("tag", _q("win"), ["l", [["l", [_s("zero"), ["d", [["type", _s("regex")], ["regex", _s("a0")]]]]]]])]],
     [["RETURN", ["d", [["n", _c("nop")], ["events", _c("limit_events", _q("win"), ["i", 1])], ["k", ["l", [["v", "NAME"], ["v", "true"]]]]]]]],
+    # the same filter string with different hostnames, in one program and across programs of the same process
+    [["a", _c("find_bucket", _s("win"), _s("host1"))], ["b", _c("find_bucket", _s("win"), _s("host2"))], ["RETURN", ["l", [["v", "a"], ["v", "b"]]]]],
+    [["a", _c("find_bucket", _s("win"), _s("host2"))], ["b", _c("find_bucket", _s("win"))], ["RETURN", ["l", [["v", "b"], ["v", "a"], _c("query_bucket", ["v", "a"])]]]],
+    [["RETURN", _c("query_bucket", _c("find_bucket", _s("win"), _s("host2")))]],
+    # the same bucket read twice with an annotating transform applied to the first result only
+    [["a", _q("win")], ["c", _c("categorize", ["v", "a"], ["l", [["l", [["l", [_s("Work")]], ["d", [["type", _s("regex")], ["regex", _s("a0|a2")]]]]]]])],
+     ["d", _q("win")], ["RETURN", ["v", "d"]]],
+    [["a", _q("win")], ["c", _c("tag", ["v", "a"], ["l", [["l", [_s("zero"), ["d", [["type", _s("regex")], ["regex", _s("a0")]]]]]]])],
+     ["RETURN", ["l", [_c("query_bucket_eventcount", _s("win")), _q("win")]]]],
+    # an empty list of values: filter keeps nothing, exclude keeps everything
+    [["RETURN", _c("filter_keyvals", _q("win"), _s("app"), ["l", []])]],
+    [["v", ["l", []]], ["RETURN", ["l", [_c("filter_keyvals", _q("win"), _s("app"), ["v", "v"]), _c("exclude_keyvals", _q("win"), _s("app"), ["v", "v"])]]]],
+    [["RETURN", _c("exclude_keyvals", _q("win"), _s("app"), ["l", []])]],
 ]
 
 
